@@ -54,6 +54,7 @@ enum Op {
     LH, // lock, hold until every other thread is parked, unlock
     RH, // read, hold likewise
     WH, // write, hold likewise
+    F,  // lock / write and never release (the guard is forgotten): later waiters on this instance wait legitimately for ever
     D,  // format the Mutex with {:?} (an observer: takes the lock with try_lock if it can, prints <locked> otherwise)
 }
 impl Op {
@@ -69,6 +70,7 @@ impl Op {
             Op::RH => "h",
             Op::WH => "X",
             Op::D => "D",
+            Op::F => "F",
         }
     }
     fn from_char(c: char) -> Op {
@@ -83,6 +85,7 @@ impl Op {
             'h' => Op::RH,
             'X' => Op::WH,
             'D' => Op::D,
+            'F' => Op::F,
             _ => panic!("bad op {c}"),
         }
     }
@@ -90,7 +93,7 @@ impl Op {
         matches!(self, Op::T | Op::TR | Op::TW | Op::D)
     }
     fn is_writer(self) -> bool {
-        matches!(self, Op::L | Op::T | Op::W | Op::TW | Op::LH | Op::WH | Op::D)
+        matches!(self, Op::L | Op::T | Op::W | Op::TW | Op::LH | Op::WH | Op::D | Op::F)
     }
 }
 
@@ -107,6 +110,10 @@ struct Call {
 struct H {
     mutex: Option<Box<sync::Mutex<TrackedCell>>>,
     rw: Option<Box<sync::RwLock<TrackedCell>>>,
+    // second, independent lock instance (programs with `nlocks == 2`: thread t uses lock t % 2)
+    mutex2: Option<Box<sync::Mutex<TrackedCell>>>,
+    rw2: Option<Box<sync::RwLock<TrackedCell>>>,
+    nlocks: usize,
     in_cs: Vec<(usize, bool)>,
     writes: u64,
     calls: Vec<Call>,
@@ -126,6 +133,8 @@ struct LockModel {
     /// C02 only: number of read guards that were obtained and leaked (`mem::forget`) before the program starts;
     /// written straight into the state word (2^30 real acquisitions are out of reach)
     preset: u32,
+    /// number of independent lock instances (1 or 2); thread t works on instance t % nlocks
+    nlocks: usize,
 }
 
 const MAX_READERS: u32 = (1 << 30) - 2; // rwlock.rs: MASK - 1
@@ -154,7 +163,8 @@ fn prog_name(p: &[Vec<Op>]) -> String {
 fn cs_enter(tid: usize, writer: bool) {
     HS.with(|h| {
         let mut h = h.borrow_mut();
-        let conflict = h.in_cs.iter().any(|&(_, w)| w || writer);
+        let nl = h.nlocks.max(1);
+        let conflict = h.in_cs.iter().any(|&(t, w)| t % nl == tid % nl && (w || writer));
         if conflict {
             let who: Vec<String> = h.in_cs.iter().map(|&(t, w)| format!("T{t}{}", if w { "(exclusive)" } else { "(shared)" })).collect();
             ilv::flag_violation(
@@ -163,7 +173,7 @@ fn cs_enter(tid: usize, writer: bool) {
             );
         }
         h.in_cs.push((tid, writer));
-        let readers = h.in_cs.iter().filter(|x| !x.1).count();
+        let readers = h.in_cs.iter().filter(|x| !x.1 && x.0 % nl == tid % nl).count();
         h.max_readers = h.max_readers.max(readers);
         h.order.push_str(&format!("{tid}{}", if writer { 'x' } else { 's' }));
     });
@@ -185,6 +195,14 @@ impl Model for LockModel {
         HS.with(|h| {
             let mut h = h.borrow_mut();
             *h = H::default();
+            h.nlocks = self.nlocks;
+            if self.nlocks == 2 {
+                if self.id == "C01" {
+                    h.mutex2 = Some(Box::new(sync::Mutex::new(TrackedCell::new(0))));
+                } else {
+                    h.rw2 = Some(Box::new(sync::RwLock::new(TrackedCell::new(0))));
+                }
+            }
             if self.id == "C01" {
                 h.mutex = Some(Box::new(sync::Mutex::new(TrackedCell::new(0))));
             } else {
@@ -200,9 +218,10 @@ impl Model for LockModel {
         // the lock lives in a Box owned by the worker's harness state for the whole execution
         let (m, rw): (*const sync::Mutex<TrackedCell>, *const sync::RwLock<TrackedCell>) = HS.with(|h| {
             let h = h.borrow();
+            let second = self.nlocks == 2 && tid % 2 == 1;
             (
-                h.mutex.as_deref().map(|x| x as *const _).unwrap_or(std::ptr::null()),
-                h.rw.as_deref().map(|x| x as *const _).unwrap_or(std::ptr::null()),
+                if second { &h.mutex2 } else { &h.mutex }.as_deref().map(|x| x as *const _).unwrap_or(std::ptr::null()),
+                if second { &h.rw2 } else { &h.rw }.as_deref().map(|x| x as *const _).unwrap_or(std::ptr::null()),
             )
         });
         for &op in &self.prog[tid] {
@@ -228,13 +247,18 @@ impl Model for LockModel {
                             if matches!(op, Op::LH | Op::RH | Op::WH) {
                                 ilv::hold_until_quiescent();
                             }
-                            let v = g.get();
-                            if $writer {
-                                g.set(v + 1);
-                                HS.with(|h| h.borrow_mut().writes += 1);
+                            if op == Op::F {
+                                // held for ever: stays in `in_cs`, the guard is never dropped
+                                std::mem::forget(g);
+                            } else {
+                                let v = g.get();
+                                if $writer {
+                                    g.set(v + 1);
+                                    HS.with(|h| h.borrow_mut().writes += 1);
+                                }
+                                cs_exit(tid);
+                                drop(g);
                             }
-                            cs_exit(tid);
-                            drop(g);
                             true
                         }
                         None => false,
@@ -276,6 +300,8 @@ impl Model for LockModel {
                     Op::W => body!(Some((*rw).write()), true),
                     Op::TR => body!((*rw).try_read(), false),
                     Op::TW => body!((*rw).try_write(), true),
+                    Op::F if self.id == "C01" => body!(Some((*m).lock()), true),
+                    Op::F => body!(Some((*rw).write()), true),
                     Op::LH => body!(Some((*m).lock()), true),
                     Op::RH => body!(Some((*rw).read()), false),
                     Op::WH => body!(Some((*rw).write()), true),
@@ -307,9 +333,19 @@ impl Model for LockModel {
             Some(Op::RH) => "read",
             Some(Op::WH) => "write",
             Some(Op::D) => "debug-fmt",
+            Some(Op::F) => "lock-for-ever",
             None => "?",
         };
         format!("{n}:panic")
+    }
+    fn stuck_ok(&self, blocked: &[usize]) -> bool {
+        // a parked thread waits legitimately iff its lock instance is held by a for-ever holder
+        HS.with(|h| {
+            let h = h.borrow();
+            let nl = self.nlocks.max(1);
+            let forever: Vec<usize> = self.prog.iter().enumerate().filter(|(_, p)| p.contains(&Op::F)).map(|(t, _)| t).collect();
+            !blocked.is_empty() && blocked.iter().all(|&b| h.in_cs.iter().any(|&(t, _)| forever.contains(&t) && t % nl == b % nl))
+        })
     }
     fn finish(&self, end: &End) -> String {
         HS.with(|h| {
@@ -317,7 +353,13 @@ impl Model for LockModel {
             let mut label = String::new();
             if *end == End::Finished {
                 // lost update / visibility: the cell counts the exclusive sections executed
-                let cell = if let Some(m) = h.mutex.as_mut() { unsafe { *m.get_mut().v.get() } } else { unsafe { *h.rw.as_mut().unwrap().get_mut().v.get() } };
+                let mut cell = if let Some(m) = h.mutex.as_mut() { unsafe { *m.get_mut().v.get() } } else { unsafe { *h.rw.as_mut().unwrap().get_mut().v.get() } };
+                if let Some(m) = h.mutex2.as_mut() {
+                    cell += unsafe { *m.get_mut().v.get() };
+                }
+                if let Some(l) = h.rw2.as_mut() {
+                    cell += unsafe { *l.get_mut().v.get() };
+                }
                 if cell != h.writes {
                     ilv::flag_violation("lost-update", format!("{} exclusive sections ran but the protected counter is {cell}", h.writes));
                 }
@@ -325,7 +367,7 @@ impl Model for LockModel {
                 for c in h.calls.iter().filter(|c| !c.got) {
                     // a failed try must overlap a conflicting holder (lenient: call intervals)
                     let overlapped = h.calls.iter().any(|o| {
-                        o.tid != c.tid && o.got && o.start <= c.end && c.start <= o.end && (o.op.is_writer() || c.op.is_writer() || self.id == "C02")
+                        o.tid != c.tid && o.tid % self.nlocks == c.tid % self.nlocks && o.got && o.start <= c.end && c.start <= o.end && (o.op.is_writer() || c.op.is_writer() || self.id == "C02")
                     });
                     if self.id == "C01" && !overlapped {
                         ilv::flag_violation(
@@ -338,11 +380,15 @@ impl Model for LockModel {
                 if h.max_readers > 1 {
                     label.push_str("+shared");
                 }
+            } else if *end == End::Stuck {
+                label = format!("{}:waiting-behind-a-for-ever-holder", h.order);
             } else {
                 label = format!("{end:?}");
             }
             h.mutex = None;
             h.rw = None;
+            h.mutex2 = None;
+            h.rw2 = None;
             label
         })
     }
@@ -381,6 +427,7 @@ struct Class {
     progs: Vec<Vec<Vec<Op>>>,
     budget: Budget,
     preset: u32,
+    nlocks: usize,
 }
 
 /// Many-thread programs (binary h-sync-wide): wake counts and batch sizes that only matter with dozens of
@@ -400,19 +447,19 @@ fn classes(id: &str, thorough: bool, _lite: bool) -> Vec<Class> {
         if id == "C01" {
             let mut p = vec![vec![Op::LH]];
             p.extend(std::iter::repeat(vec![Op::L]).take(k));
-            v.push(Class { desc: format!("holder + {k} parked lockers"), progs: vec![p], budget: bud, preset: 0 });
+            v.push(Class { desc: format!("holder + {k} parked lockers"), progs: vec![p], budget: bud, preset: 0, nlocks: 1 });
         } else {
             let mut p = vec![vec![Op::WH]];
             p.extend(std::iter::repeat(vec![Op::R]).take(k));
-            v.push(Class { desc: format!("write holder + {k} parked readers"), progs: vec![p], budget: bud, preset: 0 });
+            v.push(Class { desc: format!("write holder + {k} parked readers"), progs: vec![p], budget: bud, preset: 0, nlocks: 1 });
             let mut p = vec![vec![Op::RH]];
             p.extend(std::iter::repeat(vec![Op::W]).take(k / 2));
             p.extend(std::iter::repeat(vec![Op::R]).take(k - k / 2));
-            v.push(Class { desc: format!("read holder + {} parked writers + {} parked readers", k / 2, k - k / 2), progs: vec![p], budget: bud, preset: 0 });
+            v.push(Class { desc: format!("read holder + {} parked writers + {} parked readers", k / 2, k - k / 2), progs: vec![p], budget: bud, preset: 0, nlocks: 1 });
             let mut p = vec![vec![Op::WH]];
             p.extend(std::iter::repeat(vec![Op::W]).take(k / 2));
             p.extend(std::iter::repeat(vec![Op::R]).take(k - k / 2));
-            v.push(Class { desc: format!("write holder + {} parked writers + {} parked readers", k / 2, k - k / 2), progs: vec![p], budget: bud, preset: 0 });
+            v.push(Class { desc: format!("write holder + {} parked writers + {} parked readers", k / 2, k - k / 2), progs: vec![p], budget: bud, preset: 0, nlocks: 1 });
         }
     }
     v
@@ -447,41 +494,41 @@ fn classes(id: &str, thorough: bool, lite: bool) -> Vec<Class> {
     let observer_long = || -> Vec<Vec<Vec<Op>>> { vec![vec![vec![Op::L], vec![Op::D], vec![Op::T, Op::L]], vec![vec![Op::L, Op::L], vec![Op::D, Op::D], vec![Op::L]]] };
     if id == "C01" {
         if !thorough {
-            v.push(Class { desc: "2 threads x <=2 ops, stale reads".into(), progs: multisets(&w2, 2), budget: b(6, 2, 1), preset: 0 });
-            v.push(Class { desc: "3 threads x 1 op, stale reads".into(), progs: multisets(&w1, 3), budget: b(4, 2, 1), preset: 0 });
-            v.push(Class { desc: "3 threads x <=2 ops".into(), progs: multisets(&w2, 3), budget: b(3, 1, 0), preset: 0 });
-            v.push(Class { desc: "4 threads x 1 op".into(), progs: multisets(&w1, 4), budget: b(3, 1, 0), preset: 0 });
-            v.push(Class { desc: "4 threads, one with 2 ops".into(), progs: one_long(4), budget: b(2, 1, 0), preset: 0 });
+            v.push(Class { desc: "2 threads x <=2 ops, stale reads".into(), progs: multisets(&w2, 2), budget: b(6, 2, 1), preset: 0, nlocks: 1 });
+            v.push(Class { desc: "3 threads x 1 op, stale reads".into(), progs: multisets(&w1, 3), budget: b(4, 2, 1), preset: 0, nlocks: 1 });
+            v.push(Class { desc: "3 threads x <=2 ops".into(), progs: multisets(&w2, 3), budget: b(3, 1, 0), preset: 0, nlocks: 1 });
+            v.push(Class { desc: "4 threads x 1 op".into(), progs: multisets(&w1, 4), budget: b(3, 1, 0), preset: 0, nlocks: 1 });
+            v.push(Class { desc: "4 threads, one with 2 ops".into(), progs: one_long(4), budget: b(2, 1, 0), preset: 0, nlocks: 1 });
             // one call woken many times without winning: counters/tables indexed by the number of wake-ups
-            v.push(Class { desc: "2 threads x 1 op, up to 14 spurious futex returns".into(), progs: multisets(&w1, 2), budget: b(2, 14, 0), preset: 0 });
-            v.push(Class { desc: "3 threads x 1 op, up to 7 spurious futex returns".into(), progs: multisets(&w1, 3), budget: b(1, 7, 0), preset: 0 });
-            v.push(Class { desc: "observer: 2-3 threads x <=2 ops over {lock, try_lock, format the Mutex with {:?}}, at least one formatter".into(), progs: with_observer(2, 2).into_iter().chain(with_observer(3, 1)).chain(observer_long()).collect(), budget: b(3, 1, 0), preset: 0 });
+            v.push(Class { desc: "2 threads x 1 op, up to 14 spurious futex returns".into(), progs: multisets(&w1, 2), budget: b(2, 14, 0), preset: 0, nlocks: 1 });
+            v.push(Class { desc: "3 threads x 1 op, up to 7 spurious futex returns".into(), progs: multisets(&w1, 3), budget: b(1, 7, 0), preset: 0, nlocks: 1 });
+            v.push(Class { desc: "observer: 2-3 threads x <=2 ops over {lock, try_lock, format the Mutex with {:?}}, at least one formatter".into(), progs: with_observer(2, 2).into_iter().chain(with_observer(3, 1)).chain(observer_long()).collect(), budget: b(3, 1, 0), preset: 0, nlocks: 1 });
         } else {
-            v.push(Class { desc: "2 threads x <=3 ops, stale reads".into(), progs: multisets(&w3, 2), budget: b(6, 2, 2), preset: 0 });
-            v.push(Class { desc: "3 threads x <=2 ops, stale reads".into(), progs: multisets(&w2, 3), budget: b(3, 2, 1), preset: 0 });
-            v.push(Class { desc: "3 threads x <=2 ops, deeper preemption".into(), progs: multisets(&w2, 3), budget: b(4, 1, 0), preset: 0 });
-            v.push(Class { desc: "4 threads x 1 op, stale reads".into(), progs: multisets(&w1, 4), budget: b(3, 2, 1), preset: 0 });
-            v.push(Class { desc: "4 threads x 1 op, deeper preemption".into(), progs: multisets(&w1, 4), budget: b(4, 1, 0), preset: 0 });
-            v.push(Class { desc: "4 threads x <=2 ops".into(), progs: multisets(&w2, 4), budget: b(2, 1, 0), preset: 0 });
-            v.push(Class { desc: "5 threads x 1 op".into(), progs: multisets(&w1, 5), budget: b(2, 1, 0), preset: 0 });
-            v.push(Class { desc: "2 threads x 1 op, up to 20 spurious futex returns".into(), progs: multisets(&w1, 2), budget: b(2, 20, 0), preset: 0 });
-            v.push(Class { desc: "3 threads x 1 op, up to 10 spurious futex returns".into(), progs: multisets(&w1, 3), budget: b(1, 10, 0), preset: 0 });
-            v.push(Class { desc: "observer: 2-3 threads x <=2 ops, 4 threads x 1 op over {lock, try_lock, format the Mutex with {:?}}, at least one formatter".into(), progs: with_observer(2, 3).into_iter().chain(with_observer(3, 2)).chain(with_observer(4, 1)).collect(), budget: b(3, 1, 1), preset: 0 });
+            v.push(Class { desc: "2 threads x <=3 ops, stale reads".into(), progs: multisets(&w3, 2), budget: b(6, 2, 2), preset: 0, nlocks: 1 });
+            v.push(Class { desc: "3 threads x <=2 ops, stale reads".into(), progs: multisets(&w2, 3), budget: b(3, 2, 1), preset: 0, nlocks: 1 });
+            v.push(Class { desc: "3 threads x <=2 ops, deeper preemption".into(), progs: multisets(&w2, 3), budget: b(4, 1, 0), preset: 0, nlocks: 1 });
+            v.push(Class { desc: "4 threads x 1 op, stale reads".into(), progs: multisets(&w1, 4), budget: b(3, 2, 1), preset: 0, nlocks: 1 });
+            v.push(Class { desc: "4 threads x 1 op, deeper preemption".into(), progs: multisets(&w1, 4), budget: b(4, 1, 0), preset: 0, nlocks: 1 });
+            v.push(Class { desc: "4 threads x <=2 ops".into(), progs: multisets(&w2, 4), budget: b(2, 1, 0), preset: 0, nlocks: 1 });
+            v.push(Class { desc: "5 threads x 1 op".into(), progs: multisets(&w1, 5), budget: b(2, 1, 0), preset: 0, nlocks: 1 });
+            v.push(Class { desc: "2 threads x 1 op, up to 20 spurious futex returns".into(), progs: multisets(&w1, 2), budget: b(2, 20, 0), preset: 0, nlocks: 1 });
+            v.push(Class { desc: "3 threads x 1 op, up to 10 spurious futex returns".into(), progs: multisets(&w1, 3), budget: b(1, 10, 0), preset: 0, nlocks: 1 });
+            v.push(Class { desc: "observer: 2-3 threads x <=2 ops, 4 threads x 1 op over {lock, try_lock, format the Mutex with {:?}}, at least one formatter".into(), progs: with_observer(2, 3).into_iter().chain(with_observer(3, 2)).chain(with_observer(4, 1)).collect(), budget: b(3, 1, 1), preset: 0, nlocks: 1 });
         }
     } else if !thorough {
-        v.push(Class { desc: "2 threads x <=2 ops, stale reads".into(), progs: multisets(&w2, 2), budget: b(4, 1, 1), preset: 0 });
-        v.push(Class { desc: "3 threads x 1 op".into(), progs: multisets(&w1, 3), budget: b(3, 2, 0), preset: 0 });
-        v.push(Class { desc: "3 threads, one with 2 ops".into(), progs: one_long(3), budget: b(2, 1, 0), preset: 0 });
-        v.push(Class { desc: "4 threads x 1 op".into(), progs: multisets(&w1, 4), budget: b(2, 1, 0), preset: 0 });
-        v.push(Class { desc: "2 threads x 1 op, up to 12 spurious futex returns".into(), progs: multisets(&w1, 2), budget: b(2, 12, 0), preset: 0 });
+        v.push(Class { desc: "2 threads x <=2 ops, stale reads".into(), progs: multisets(&w2, 2), budget: b(4, 1, 1), preset: 0, nlocks: 1 });
+        v.push(Class { desc: "3 threads x 1 op".into(), progs: multisets(&w1, 3), budget: b(3, 2, 0), preset: 0, nlocks: 1 });
+        v.push(Class { desc: "3 threads, one with 2 ops".into(), progs: one_long(3), budget: b(2, 1, 0), preset: 0, nlocks: 1 });
+        v.push(Class { desc: "4 threads x 1 op".into(), progs: multisets(&w1, 4), budget: b(2, 1, 0), preset: 0, nlocks: 1 });
+        v.push(Class { desc: "2 threads x 1 op, up to 12 spurious futex returns".into(), progs: multisets(&w1, 2), budget: b(2, 12, 0), preset: 0, nlocks: 1 });
     } else {
-        v.push(Class { desc: "2 threads x <=2 ops, stale reads".into(), progs: multisets(&w2, 2), budget: b(6, 2, 2), preset: 0 });
-        v.push(Class { desc: "3 threads x 1 op, stale reads".into(), progs: multisets(&w1, 3), budget: b(4, 2, 1), preset: 0 });
-        v.push(Class { desc: "3 threads, one with 2 ops".into(), progs: one_long(3), budget: b(3, 1, 0), preset: 0 });
-        v.push(Class { desc: "4 threads x 1 op".into(), progs: multisets(&w1, 4), budget: b(3, 1, 0), preset: 0 });
-        v.push(Class { desc: "4 threads, one with 2 ops".into(), progs: one_long(4), budget: b(2, 0, 0), preset: 0 });
-        v.push(Class { desc: "2 threads x 1 op, up to 18 spurious futex returns".into(), progs: multisets(&w1, 2), budget: b(2, 18, 0), preset: 0 });
-        v.push(Class { desc: "3 threads x 1 op, up to 8 spurious futex returns".into(), progs: multisets(&w1, 3), budget: b(1, 8, 0), preset: 0 });
+        v.push(Class { desc: "2 threads x <=2 ops, stale reads".into(), progs: multisets(&w2, 2), budget: b(6, 2, 2), preset: 0, nlocks: 1 });
+        v.push(Class { desc: "3 threads x 1 op, stale reads".into(), progs: multisets(&w1, 3), budget: b(4, 2, 1), preset: 0, nlocks: 1 });
+        v.push(Class { desc: "3 threads, one with 2 ops".into(), progs: one_long(3), budget: b(3, 1, 0), preset: 0, nlocks: 1 });
+        v.push(Class { desc: "4 threads x 1 op".into(), progs: multisets(&w1, 4), budget: b(3, 1, 0), preset: 0, nlocks: 1 });
+        v.push(Class { desc: "4 threads, one with 2 ops".into(), progs: one_long(4), budget: b(2, 0, 0), preset: 0, nlocks: 1 });
+        v.push(Class { desc: "2 threads x 1 op, up to 18 spurious futex returns".into(), progs: multisets(&w1, 2), budget: b(2, 18, 0), preset: 0, nlocks: 1 });
+        v.push(Class { desc: "3 threads x 1 op, up to 8 spurious futex returns".into(), progs: multisets(&w1, 3), budget: b(1, 8, 0), preset: 0, nlocks: 1 });
     }
     if id == "C02" {
         // start states next to reader saturation: MAX_READERS-k read guards already leaked; reader-only programs
@@ -489,8 +536,45 @@ fn classes(id: &str, thorough: bool, lite: bool) -> Vec<Class> {
         let readers = words(&[Op::R, Op::TR], 2);
         for k in [0u32, 1, 2] {
             let progs: Vec<Vec<Vec<Op>>> = (1..=3).flat_map(|n| multisets(&readers, n)).filter(|p| p.iter().map(|t| t.len()).sum::<usize>() <= if thorough { 5 } else { 4 }).collect();
-            v.push(Class { desc: format!("reader saturation: {} read guards leaked beforehand (maximum minus {k}), 1-3 reader-only threads", MAX_READERS - k), progs, budget: b(2, 1, 0), preset: MAX_READERS - k });
+            v.push(Class { desc: format!("reader saturation: {} read guards leaked beforehand (maximum minus {k}), 1-3 reader-only threads", MAX_READERS - k), progs, budget: b(2, 1, 0), preset: MAX_READERS - k, nlocks: 1 });
         }
+    }
+    // two independent lock instances used at the same time (thread t works on instance t % 2): nothing one instance does
+    // may wake, block or admit a thread of the other -- state shared between instances (a static word, a shared wait
+    // address) only shows with waiters parked on both
+    {
+        let two: Vec<Vec<Vec<Op>>> = if id == "C01" {
+            vec![
+                vec![vec![Op::LH], vec![Op::LH], vec![Op::L], vec![Op::L]],
+                vec![vec![Op::L], vec![Op::L], vec![Op::L], vec![Op::L]],
+                vec![vec![Op::LH], vec![Op::L], vec![Op::L], vec![Op::T]],
+                // the second instance is never released: its waiter stays parked, everything on the first instance must still complete
+                vec![vec![Op::LH], vec![Op::F], vec![Op::L], vec![Op::L]],
+                vec![vec![Op::L], vec![Op::F], vec![Op::L], vec![Op::L]],
+            ]
+        } else {
+            let mut t = vec![
+                vec![vec![Op::WH], vec![Op::WH], vec![Op::W], vec![Op::W]],
+                vec![vec![Op::WH], vec![Op::WH], vec![Op::R], vec![Op::R]],
+                vec![vec![Op::RH], vec![Op::RH], vec![Op::W], vec![Op::W]],
+                vec![vec![Op::WH], vec![Op::RH], vec![Op::W], vec![Op::W]],
+                vec![vec![Op::WH], vec![Op::WH], vec![Op::W], vec![Op::R]],
+                vec![vec![Op::W], vec![Op::W], vec![Op::W], vec![Op::W]],
+                vec![vec![Op::W], vec![Op::R], vec![Op::R], vec![Op::W]],
+                // the second instance is never released: its waiters stay parked, everything on the first instance must still complete
+                vec![vec![Op::WH], vec![Op::F], vec![Op::W], vec![Op::W]],
+                vec![vec![Op::WH], vec![Op::F], vec![Op::W], vec![Op::R]],
+                vec![vec![Op::WH], vec![Op::F], vec![Op::R], vec![Op::W]],
+                vec![vec![Op::RH], vec![Op::F], vec![Op::W], vec![Op::W]],
+                vec![vec![Op::W], vec![Op::F], vec![Op::W], vec![Op::W]],
+            ];
+            if thorough {
+                t.push(vec![vec![Op::WH], vec![Op::WH], vec![Op::W], vec![Op::W], vec![Op::R], vec![Op::R]]);
+                t.push(vec![vec![Op::WH], vec![Op::WH], vec![Op::W, Op::R], vec![Op::R, Op::W]]);
+            }
+            t
+        };
+        v.push(Class { desc: "two lock instances, 4 threads (2 per instance), holders release once everybody is parked; with the second instance held for ever".into(), progs: two, budget: if thorough { b(4, 1, 0) } else { b(3, 1, 0) }, preset: 0, nlocks: 2 });
     }
     if lite {
         // second build profile (no debug assertions / overflow checks): same programs, the cheaper half of the budgets
@@ -533,13 +617,13 @@ fn run_lock(id: &'static str, args: &Args) -> Report {
         let mut cs = 0u64;
         let mut ct = 0u64;
         for prog in &class.progs {
-            let name = if class.preset > 0 { format!("{}@{}", prog_name(prog), class.preset) } else { prog_name(prog) };
+            let name = if class.preset > 0 { format!("{}@{}", prog_name(prog), class.preset) } else if class.nlocks == 2 { format!("{}%2", prog_name(prog)) } else { prog_name(prog) };
             if let Some(o) = &only {
                 if *o != name {
                     continue;
                 }
             }
-            let model = LockModel { id, prog: prog.clone(), try_point_limit: 40, preset: class.preset };
+            let model = LockModel { id, prog: prog.clone(), try_point_limit: 40, preset: class.preset, nlocks: class.nlocks };
             let cfg = Config { budget: class.budget, max_steps: 5_000, workers: n_workers(), max_schedules: 0, stop_at_first: false, max_seconds: class_cap };
             let st = ilv::explore(&model, &cfg);
             if !determinism_checked {
@@ -581,7 +665,7 @@ fn run_lock(id: &'static str, args: &Args) -> Report {
                 r.violation(
                     &format!("{id}:{kind}"),
                     format!("program {name} budget P{} D{} W{}: {} ({} of {} schedules)", class.budget.p, class.budget.d, class.budget.w, v.desc, v.count, st.schedules),
-                    json!({"lock": id, "program": name, "budget": [class.budget.p, class.budget.d, class.budget.w], "preset": class.preset, "choices": choices_json(&v.choices)}),
+                    json!({"lock": id, "program": name, "budget": [class.budget.p, class.budget.d, class.budget.w], "preset": class.preset, "nlocks": class.nlocks, "choices": choices_json(&v.choices)}),
                 );
             }
             if r.samples.len() < 6 && st.schedules > 50 {
@@ -618,7 +702,7 @@ fn run_lock(id: &'static str, args: &Args) -> Report {
 
 fn replay_lock(v: &serde_json::Value) -> i32 {
     let id: &'static str = if v["lock"].as_str() == Some("C01") { "C01" } else { "C02" };
-    let prog: Vec<Vec<Op>> = v["program"].as_str().unwrap().split('@').next().unwrap().split('|').map(|t| t.chars().map(Op::from_char).collect()).collect();
+    let prog: Vec<Vec<Op>> = v["program"].as_str().unwrap().split(|c| c == '@' || c == '%').next().unwrap().split('|').map(|t| t.chars().map(Op::from_char).collect()).collect();
     let b = v["budget"].as_array().unwrap();
     let budget = Budget { p: b[0].as_u64().unwrap() as u8, d: b[1].as_u64().unwrap() as u8, w: b[2].as_u64().unwrap() as u8 };
     let choices: Vec<(u16, u16)> =
@@ -626,7 +710,7 @@ fn replay_lock(v: &serde_json::Value) -> i32 {
     if id == "C02" {
         let _ = rw_state_offset();
     }
-    let model = LockModel { id, prog, try_point_limit: 40, preset: v["preset"].as_u64().unwrap_or(0) as u32 };
+    let model = LockModel { id, prog, try_point_limit: 40, preset: v["preset"].as_u64().unwrap_or(0) as u32, nlocks: v["nlocks"].as_u64().unwrap_or(1) as usize };
     let (end, label, viol, trace) = ilv::replay(&model, budget, 5_000, &choices);
     for l in &trace {
         println!("{l}");
